@@ -91,7 +91,8 @@ def _comment_after_underscore(v):
     return any(re.search(r'_[ \t\r\n\\nrt]*;', c) for c in cands)
 
 def _debug_parse_error(v):
-    return '--debug' in str(v.get('input', ''))
+    # the repeat stream itself established that the ONLY difference is goyacc's trace lines and that the run failed both times
+    return '--debug' in str(v.get('input', '')) and str(v.get('what', '')).startswith("with --debug a syntax error makes goyacc print")
 
 def _not_float_safe(v):
     for s in _hex_strings(v.get('input', '')):
